@@ -55,7 +55,7 @@ func (b *Block) Has(flag string) bool {
 }
 
 var clauseKinds = map[string]bool{
-	"requires": true, "ensures": true, "exit": true, "focus": true, "splitreturn": true, "invariant": true, "decreases": true,
+	"requires": true, "ensures": true, "exit": true, "focus": true, "waitsfor": true, "splitreturn": true, "invariant": true, "decreases": true,
 	"modifies": true, "props": true, "nopanic": true, "pure": true, "inline": true,
 	"let": true, "alloc": true, "assume": true, "assert": true, "havoc": true,
 	"trusted": true, "unroll": true, "callback": true, "protects": true,
